@@ -55,7 +55,22 @@ func c09ProcProgram(rng *gen.Rng, i int) string {
 	pats := []string{"at least 1 digit", "(maybe digit) = cap letter", "any", "at least 0 'a' 'b'", "whole word", "(at most 2 digit) = cap ','"}
 	pat := pats[rng.Intn(len(pats))]
 	if transform {
-		return "set f to transform " + body + " end\nreplace all " + pat + " with f '|' value"
+		with := "f '|' value"
+		extra := ""
+		if rng.Chance(1, 2) {
+			// a second transform in the same replacement that READS a name the first one assigns and never
+			// assigns it itself (there it is an unassigned name, i.e. a string), and the first one called twice
+			pool := append(append(append([]string{}, pg.strVar...), pg.numVar...), pg.boolVar...)
+			if len(pool) > 0 {
+				nm := pool[rng.Intn(len(pool))]
+				bodies := []string{"return " + nm + " + 'x'", "if " + nm + " == '' then return 'e' end return " + nm, "return head " + nm + " + tail " + nm, "return " + nm + " + 1"}
+				extra = "set fb to transform " + bodies[rng.Intn(len(bodies))] + " end\n"
+				with = []string{"f fb '|' value", "f f fb", "fb f fb f"}[rng.Intn(3)]
+			} else {
+				with = "f f '|' value"
+			}
+		}
+		return "set f to transform " + body + " end\n" + extra + "replace all " + pat + " with " + with
 	}
 	return "set p to pattern " + pat + " begin " + body + " end\nfind all p"
 }
